@@ -182,6 +182,9 @@ func (fn *Func) GuardsAt(n ast.Node) *Formula {
 			parts = append(parts, eg)
 		}
 	}
+	if eg := fn.closureEntryGuards(); eg != nil {
+		parts = append(parts, eg)
+	}
 	return fn.expandHelperCalls(fn.expandBoolVars(fAnd(parts...), 2), 2)
 }
 
@@ -270,7 +273,12 @@ func (fn *Func) expandBoolVars(f *Formula, depth int) *Formula {
 	}
 	pure := true
 	switch d := ast.Unparen(def).(type) {
-	case *ast.BinaryExpr, *ast.UnaryExpr:
+	case *ast.BinaryExpr, *ast.UnaryExpr, *ast.CallExpr:
+		if c, isCall := d.(*ast.CallExpr); isCall {
+			if bt, isB := info.TypeOf(c).Underlying().(*types.Basic); !isB || bt.Kind() != types.Bool {
+				pure = false
+			}
+		}
 		ast.Inspect(d, func(n ast.Node) bool {
 			switch n := n.(type) {
 			case *ast.CallExpr:
@@ -769,61 +777,367 @@ func (fn *Func) edgeCondFormula(b *cfg.Block, k int) *Formula {
 // nil if the callee is not of that shape.
 func (fn *Func) inlinePredicateCall(call *ast.CallExpr) ast.Expr {
 	info := fn.Info()
+	var stmts []ast.Stmt
+	var params []types.Object
+	var recvField *ast.FieldList
 	callee := calleeOf(info, call)
-	if callee == nil || callee.Pkg() == nil || callee.Pkg() != fn.Pkg.Types {
-		return nil
-	}
-	cf := fn.Prog.FuncOf[callee]
-	if cf == nil || cf.Body == nil || len(cf.Body.List) == 0 || len(cf.Body.List) > 4 || cf.Decl == nil {
-		return nil
-	}
-	ret, ok := cf.Body.List[len(cf.Body.List)-1].(*ast.ReturnStmt)
-	if !ok || len(ret.Results) != 1 {
-		return nil
-	}
-	sig := callee.Type().(*types.Signature)
-	if sig.Variadic() || sig.Params().Len() != len(call.Args) || sig.Results().Len() != 1 {
-		return nil
-	}
-	if b, isB := sig.Results().At(0).Type().Underlying().(*types.Basic); len(cf.Body.List) > 1 && (!isB || b.Kind() != types.Bool) {
-		return nil
-	}
-	body := ret.Results[0]
-	// guard clauses in front of the final return: `if C { return true }` reads C || rest,
-	// `if C { return false }` reads !C && rest
-	for i := len(cf.Body.List) - 2; i >= 0; i-- {
-		is, ok := cf.Body.List[i].(*ast.IfStmt)
-		if !ok || is.Init != nil || is.Else != nil || len(is.Body.List) != 1 {
+	if callee != nil {
+		if callee.Pkg() == nil || callee.Pkg() != fn.Pkg.Types {
 			return nil
 		}
-		r0, ok := is.Body.List[0].(*ast.ReturnStmt)
-		if !ok || len(r0.Results) != 1 {
+		cf := fn.Prog.FuncOf[callee]
+		if cf == nil || cf.Body == nil || cf.Decl == nil {
 			return nil
 		}
-		id, ok := ast.Unparen(r0.Results[0]).(*ast.Ident)
-		if !ok || (id.Name != "true" && id.Name != "false") {
+		sig := callee.Type().(*types.Signature)
+		if sig.Variadic() || sig.Params().Len() != len(call.Args) || sig.Results().Len() != 1 {
 			return nil
 		}
-		if id.Name == "true" {
-			body = &ast.BinaryExpr{X: &ast.ParenExpr{X: is.Cond}, Op: token.LOR, Y: &ast.ParenExpr{X: body}}
-		} else {
-			body = &ast.BinaryExpr{X: &ast.UnaryExpr{Op: token.NOT, X: &ast.ParenExpr{X: is.Cond}}, Op: token.LAND, Y: &ast.ParenExpr{X: body}}
+		if b, isB := sig.Results().At(0).Type().Underlying().(*types.Basic); len(cf.Body.List) > 1 && (!isB || b.Kind() != types.Bool) {
+			return nil
 		}
+		stmts = cf.Body.List
+		for i := 0; i < sig.Params().Len(); i++ {
+			params = append(params, sig.Params().At(i))
+		}
+		recvField = cf.Decl.Recv
+	} else {
+		// a local closure bound once: pred := func(x T) bool {…}
+		id, ok := ast.Unparen(call.Fun).(*ast.Ident)
+		if !ok {
+			return nil
+		}
+		o := info.ObjectOf(id)
+		if o == nil {
+			return nil
+		}
+		var lit *ast.FuncLit
+		for f := fn; f != nil && lit == nil; f = f.Parent {
+			if def := f.SingleDef(o); def != nil {
+				lit, _ = ast.Unparen(def).(*ast.FuncLit)
+			}
+		}
+		if lit == nil || lit.Type.Results == nil || len(lit.Type.Results.List) != 1 || len(lit.Type.Results.List[0].Names) > 1 {
+			return nil
+		}
+		if b, isB := info.TypeOf(lit.Type.Results.List[0].Type).Underlying().(*types.Basic); !isB || b.Kind() != types.Bool {
+			return nil
+		}
+		for _, f := range lit.Type.Params.List {
+			if len(f.Names) == 0 {
+				return nil
+			}
+			if _, variadic := f.Type.(*ast.Ellipsis); variadic {
+				return nil
+			}
+			for _, nm := range f.Names {
+				params = append(params, info.ObjectOf(nm))
+			}
+		}
+		if len(params) != len(call.Args) {
+			return nil
+		}
+		stmts = lit.Body.List
 	}
-	if cf.Decl.Recv != nil {
+	if len(stmts) == 0 || len(stmts) > 4 {
+		return nil
+	}
+	body := predicateBody(info, stmts)
+	if body == nil {
+		return nil
+	}
+	if recvField != nil {
 		// a one-line predicate method: the receiver reads as the expression it is called on
 		sel, isSel := ast.Unparen(call.Fun).(*ast.SelectorExpr)
-		if !isSel || len(cf.Decl.Recv.List) != 1 || len(cf.Decl.Recv.List[0].Names) != 1 || pathOf(info, sel.X) == "" {
+		if !isSel || len(recvField.List) != 1 || len(recvField.List[0].Names) != 1 || pathOf(info, sel.X) == "" {
 			return nil
 		}
-		ro := info.ObjectOf(cf.Decl.Recv.List[0].Names[0])
+		ro := info.ObjectOf(recvField.List[0].Names[0])
 		if ro == nil {
 			return nil
 		}
 		body = substExpr(body, ro, sel.X, info)
 	}
-	for i := 0; i < sig.Params().Len(); i++ {
-		body = substExpr(body, sig.Params().At(i), call.Args[i], info)
+	for i, po := range params {
+		if po == nil {
+			return nil
+		}
+		body = substExpr(body, po, call.Args[i], info)
 	}
 	return body
+}
+
+// predicateBody reads a short predicate body as one boolean expression: a final
+// `return <expr>` preceded by guard clauses — `if C { return true }` reads C || rest,
+// `if C { return false }` reads !C && rest; a tagless switch whose cases each return a
+// boolean literal is the same thing written as a ladder (its default, when it is the last
+// statement, is the rest).
+func predicateBody(info *types.Info, stmts []ast.Stmt) ast.Expr {
+	type step struct {
+		cond ast.Expr
+		val  bool
+	}
+	boolLit := func(st []ast.Stmt) (bool, bool) {
+		if len(st) != 1 {
+			return false, false
+		}
+		r0, ok := st[0].(*ast.ReturnStmt)
+		if !ok || len(r0.Results) != 1 {
+			return false, false
+		}
+		id, ok := ast.Unparen(r0.Results[0]).(*ast.Ident)
+		if !ok || (id.Name != "true" && id.Name != "false") {
+			return false, false
+		}
+		return id.Name == "true", true
+	}
+	var steps []step
+	var body ast.Expr
+	type localDef struct {
+		o   types.Object
+		def ast.Expr
+	}
+	var locals []localDef
+	for i, st := range stmts {
+		last := i == len(stmts)-1
+		switch x := st.(type) {
+		case *ast.AssignStmt:
+			// a local introduced for a sub-expression: read as that expression
+			if last || x.Tok != token.DEFINE || len(x.Lhs) != len(x.Rhs) {
+				return nil
+			}
+			for k, l := range x.Lhs {
+				id, ok := l.(*ast.Ident)
+				if !ok || info.Defs[id] == nil {
+					return nil
+				}
+				locals = append(locals, localDef{info.Defs[id], x.Rhs[k]})
+			}
+		case *ast.ReturnStmt:
+			if !last || len(x.Results) != 1 {
+				return nil
+			}
+			body = x.Results[0]
+		case *ast.IfStmt:
+			if last || x.Init != nil || x.Else != nil {
+				return nil
+			}
+			v, ok := boolLit(x.Body.List)
+			if !ok {
+				return nil
+			}
+			steps = append(steps, step{x.Cond, v})
+		case *ast.SwitchStmt:
+			if x.Init != nil || x.Tag != nil {
+				return nil
+			}
+			for k, c := range x.Body.List {
+				cc := c.(*ast.CaseClause)
+				if cc.List == nil {
+					// default: only as the very end of the predicate
+					if !last || k != len(x.Body.List)-1 || len(cc.Body) != 1 {
+						return nil
+					}
+					r0, ok := cc.Body[0].(*ast.ReturnStmt)
+					if !ok || len(r0.Results) != 1 {
+						return nil
+					}
+					body = r0.Results[0]
+					continue
+				}
+				v, ok := boolLit(cc.Body)
+				if !ok {
+					return nil
+				}
+				var cond ast.Expr
+				for _, e := range cc.List {
+					if cond == nil {
+						cond = &ast.ParenExpr{X: e}
+					} else {
+						cond = &ast.BinaryExpr{X: cond, Op: token.LOR, Y: &ast.ParenExpr{X: e}}
+					}
+				}
+				steps = append(steps, step{cond, v})
+			}
+			if last && body == nil {
+				return nil
+			}
+		default:
+			return nil
+		}
+	}
+	if body == nil {
+		return nil
+	}
+	isLit := func(e ast.Expr, name string) bool {
+		id, ok := ast.Unparen(e).(*ast.Ident)
+		return ok && id.Name == name
+	}
+	if len(locals) > 0 {
+		// later definitions may use earlier ones: substitute from the last backwards
+		subst := func(e ast.Expr) ast.Expr {
+			for k := len(locals) - 1; k >= 0; k-- {
+				e = substExpr(e, locals[k].o, locals[k].def, info)
+			}
+			return e
+		}
+		body = subst(body)
+		for i := range steps {
+			steps[i].cond = subst(steps[i].cond)
+		}
+	}
+	for i := len(steps) - 1; i >= 0; i-- {
+		// C || false is C; !C && true is !C
+		if steps[i].val && isLit(body, "false") {
+			body = &ast.ParenExpr{X: steps[i].cond}
+			continue
+		}
+		if !steps[i].val && isLit(body, "true") {
+			body = &ast.UnaryExpr{Op: token.NOT, X: &ast.ParenExpr{X: steps[i].cond}}
+			continue
+		}
+		if steps[i].val {
+			body = &ast.BinaryExpr{X: &ast.ParenExpr{X: steps[i].cond}, Op: token.LOR, Y: &ast.ParenExpr{X: body}}
+		} else {
+			body = &ast.BinaryExpr{X: &ast.UnaryExpr{Op: token.NOT, X: &ast.ParenExpr{X: steps[i].cond}}, Op: token.LAND, Y: &ast.ParenExpr{X: body}}
+		}
+	}
+	return body
+}
+
+// closureEntryGuards: what is known to hold whenever the body of a function literal starts
+// to run, read off the enclosing function: the guards of the place where the literal is
+// written, and, for a local closure that is only ever called by name (name := func…; every
+// other use is name(…)), the disjunction of the guards of its call sites. Only atoms over
+// variables that are assigned at most once anywhere in the enclosing declaration are kept
+// (a captured variable is shared, so a guard over a re-assigned one may no longer hold when
+// the literal runs); the kept atoms carry no fact, so no staleness walk is attempted on them.
+func (fn *Func) closureEntryGuards() *Formula {
+	if fn.Parent == nil || fn.Lit == nil {
+		return nil
+	}
+	if fn.entryGuardsDone {
+		return fn.entryGuards
+	}
+	fn.entryGuardsDone = true
+	par := fn.Parent
+	root := rootFunc(fn)
+	info := fn.Info()
+	stable := func(e ast.Expr) bool {
+		ok := true
+		ast.Inspect(e, func(n ast.Node) bool {
+			if id, isId := n.(*ast.Ident); isId {
+				if v, isVar := info.ObjectOf(id).(*types.Var); isVar && !v.IsField() && v.Pkg() == fn.Pkg.Types && v.Parent() != fn.Pkg.Types.Scope() {
+					n := len(root.Assignments(v))
+					if root.isParam(v) {
+						if n > 0 {
+							ok = false
+						}
+					} else if n > 1 {
+						ok = false
+					}
+				}
+			}
+			return ok
+		})
+		return ok
+	}
+	var strip func(f *Formula) *Formula // nil: nothing kept (true)
+	strip = func(f *Formula) *Formula {
+		if f == nil {
+			return nil
+		}
+		switch f.Op {
+		case 0:
+			a := f.Atom
+			if a == nil {
+				return nil
+			}
+			if a.E != nil && !stable(a.E) {
+				return nil
+			}
+			if a.TypeX != nil && !stable(a.TypeX) {
+				return nil
+			}
+			c := *a
+			c.Fact = nil
+			return &Formula{Atom: &c}
+		case 1:
+			var sub []*Formula
+			for _, s := range f.Sub {
+				if k := strip(s); k != nil {
+					sub = append(sub, k)
+				}
+			}
+			if len(sub) == 0 {
+				return nil
+			}
+			return fAnd(sub...)
+		default:
+			var sub []*Formula
+			for _, s := range f.Sub {
+				k := strip(s)
+				if k == nil {
+					return nil // one alternative is unknown: the disjunction says nothing
+				}
+				sub = append(sub, k)
+			}
+			if len(sub) == 0 {
+				return nil
+			}
+			return fOr(sub...)
+		}
+	}
+	var parts []*Formula
+	if at := fn.Prog.parents[fn.Lit]; at != nil && par.BlockOf(at) != nil {
+		if k := strip(par.GuardsAt(at)); k != nil {
+			parts = append(parts, k)
+		}
+	}
+	// a local closure that is only called by name
+	if as, ok := fn.Prog.parents[fn.Lit].(*ast.AssignStmt); ok && as.Tok == token.DEFINE && len(as.Lhs) == 1 && len(as.Rhs) == 1 {
+		if id, ok := as.Lhs[0].(*ast.Ident); ok {
+			if o := info.ObjectOf(id); o != nil && len(root.Assignments(o)) == 1 {
+				var calls []*ast.CallExpr
+				only := true
+				ast.Inspect(root.Body, func(n ast.Node) bool {
+					u, isId := n.(*ast.Ident)
+					if !isId || u == id || info.ObjectOf(u) != o {
+						return true
+					}
+					call, isCall := fn.Prog.parents[u].(*ast.CallExpr)
+					if !isCall || call.Fun != ast.Expr(u) || par.BlockOf(call) == nil {
+						only = false
+						return true
+					}
+					switch fn.Prog.parents[call].(type) {
+					case *ast.GoStmt, *ast.DeferStmt:
+						only = false
+					}
+					calls = append(calls, call)
+					return true
+				})
+				if only && len(calls) > 0 {
+					var alts []*Formula
+					for _, c := range calls {
+						k := strip(par.GuardsAt(c))
+						if k == nil {
+							alts = nil
+							break
+						}
+						alts = append(alts, k)
+					}
+					if len(alts) == 1 {
+						parts = append(parts, alts[0])
+					} else if len(alts) > 1 {
+						parts = append(parts, fOr(alts...))
+					}
+				}
+			}
+		}
+	}
+	if len(parts) > 0 {
+		fn.entryGuards = fAnd(parts...)
+	}
+	return fn.entryGuards
 }
